@@ -83,6 +83,19 @@ def sem_equal_real(a, b, rng: random.Random, rename=None, k=3, funcs=None, tol: 
     fa, fb = E.sympy_fv(a), E.sympy_fv(b)
     names_b = fb | {rename.get(n, n) for n in fa}
     decided = 0
+    if not fa and not fb and not funcs and (has_float(a) or has_float(b)):
+        # two CLOSED expressions of which one is a float: a constant such as log2(20) is written out as 4.32192809488736 (15 significant
+        # digits); the exact evaluator reads `log2` as an uninterpreted function and cannot meet a float — compare numerically instead
+        # (thorough seed 25, C13).  Calls of unknown functions do not evaluate: those fall through to the exact comparison below.
+        try:
+            import sympy
+
+            za, zb = complex(sympy.N(sympy.sympify(a), 30)), complex(sympy.N(sympy.sympify(b), 30))
+            if za == za and zb == zb:
+                scale = max(1.0, abs(za), abs(zb))
+                return ("equal", 1) if abs(za - zb) <= 1e-12 * scale else ("different", {"point": {}, "left": str(za), "right": str(zb)})
+        except Exception:
+            pass
     for env_b in points(names_b, rng, k + 4):
         salt = rng.randint(0, 10**6)
         env_a = {n: env_b[rename.get(n, n)] for n in fa}
